@@ -45,10 +45,10 @@ REGISTRY = dict(
               "scheduler gate + TLC trace validation of every run")
 
 TIERS = {
-    "quick": dict(mc=[(4, 2), (3, 3)], cover=(3, 2), sim=dict(n=4, k=3, num=1200), rnd=dict(n=4, k=3, reps=1),
-                  btrace=1000),
+    "quick": dict(mc=[(4, 2)], cover=(3, 2), sim=dict(n=4, k=3, num=1000), rnd=dict(n=4, k=3, reps=1),
+                  btrace=600),
     "thorough": dict(mc=[(5, 3)], cover=(4, 3), sim=dict(n=5, k=3, num=40000), rnd=dict(n=5, k=3, reps=6),
-                     btrace=40000),
+                     btrace=15000),
 }
 
 MC_CFG = """SPECIFICATION Spec
